@@ -9,7 +9,7 @@ mkdir -p .work/bin evidence replays
 (cd factgen && go build -o ../.work/bin/factgen .)
 .work/bin/factgen -repo "${VERIF_REPO:-/repo}" -out lean/ConduitModel/ConduitModel/Generated -json .work/facts.json
 (cd lean/ConduitModel && lake build)
-rm -rf .work/setup_h && cp -r harness .work/setup_h && cp "${VERIF_REPO:-/repo}/go.sum" .work/setup_h/go.sum
+rm -rf .work/setup_h && cp -r harness .work/setup_h && cp "${VERIF_REPO:-/repo}/go.sum" .work/setup_h/go.sum && sed -i "s#=> /repo#=> ${VERIF_REPO:-/repo}#" .work/setup_h/go.mod
 (cd .work/setup_h && go build -tags verif -o ../bin/ ./cmd/... ) || echo "harness warm-up build failed (checks will report it)"
 rm -rf .work/setup_h
 echo setup done
